@@ -39,7 +39,11 @@ def classify(rec):
     """Key of a property failure: names the input class, because known findings suppress by key."""
     p = rec["params"]
     if rec.get("forced"):
-        return grace_key()
+        # the known finding covers exactly the scenarios built to outlast the grace period
+        period_ms = p.get("grace_ms") or (table_value("grace_ns") or 60 * 10 ** 9) // 10 ** 6
+        if p.get("hold_ms", 0) > period_ms:
+            return grace_key()
+        return "tunnel-%s-closed-by-force-although-no-grace-period-elapsed" % p["mode"]
     if p["mode"] in ("uphttp", "uphttps") and p.get("reply_variant", 0) in (5, 6) and \
             (rec.get("overread_by_reply_reader") or rec.get("timeout") or not rec.get("reply")):
         return KEY_2XX_BODY
